@@ -89,6 +89,10 @@ pub trait L {
     fn mprov(&mut self) -> u32 {
         5
     }
+    /// the same with a pinned exclusive receiver
+    fn pprov(self: core::pin::Pin<&mut Self>) -> u32 {
+        6
+    }
 }
 
 #[derive(Clone, Copy, Debug, PartialEq, Eq, PartialOrd, Ord, Hash)]
@@ -101,9 +105,10 @@ enum Op {
     Mut1,
     MAns,
     MProv,
+    PProv,
 }
 
-const OPS: [Op; 8] = [Op::Ref1, Op::Ref2, Op::Lent, Op::Ans, Op::Prov, Op::Mut1, Op::MAns, Op::MProv];
+const OPS: [Op; 9] = [Op::Ref1, Op::Ref2, Op::Lent, Op::Ans, Op::Prov, Op::Mut1, Op::MAns, Op::MProv, Op::PProv];
 
 #[derive(Clone, Copy, Debug, PartialEq, Eq, PartialOrd, Ord, Hash)]
 struct Step {
@@ -234,6 +239,13 @@ fn run_sequence_inner(steps: &[Step]) -> Result<String, String> {
                 }
                 None
             }
+            Op::PProv => {
+                let v = <Unimock as L>::pprov(core::pin::Pin::new(&mut *insts[i]));
+                if v != 6 {
+                    return Err(format!("step {si}: pinned provided method returned {v}"));
+                }
+                None
+            }
             Op::Mut1 | Op::MAns => {
                 // exclusive access to instance i: every value of its own chain may be released
                 for h in held.iter().filter(|h| h.owner == Owner::Chain(st.inst)) {
@@ -313,6 +325,7 @@ fn run_sequence_inner(steps: &[Step]) -> Result<String, String> {
             Op::Mut1 => 'm',
             Op::MAns => 'M',
             Op::MProv => 'x',
+            Op::PProv => 'y',
         });
     }
     // tear down: clone first; its values (and its helper's) go, the original's stay
@@ -610,7 +623,9 @@ fn main() {
         machinery("only sequential C13 cases can be replayed individually; re-run the check for the others");
     }
     let quick = ctx.quick() || ctx.variant != "std";
-    let len = if quick { 4 } else { 7 };
+    // 9 operations x 2 instances: length 4 (quick) / 6 (thorough); thorough adds length 7 with
+    // the last three steps on the original only
+    let len = if quick { 4 } else { 6 };
     ctx.watchdog(180, || J::Str("no progress in the C13 explorer".into()));
     let mut alphabet = vec![];
     for op in OPS {
@@ -620,6 +635,7 @@ fn main() {
     }
     // partition by the first two steps for parallelism
     let heads = sequences(&alphabet, 2);
+    let heads7: Vec<Vec<Step>> = if quick { vec![] } else { sequences(&alphabet, 4) };
     let parts = par_map(&heads, |_, head| {
         let mut st = Stats::default();
         for tail in sequences(&alphabet, len - 2) {
@@ -651,6 +667,33 @@ fn main() {
     });
     let mut stats = Stats::default();
     for p in parts {
+        stats.merge(p);
+    }
+    // thorough: length 7 = every 4 free steps followed by every 3 steps on the original
+    let on_original: Vec<Step> = OPS.iter().map(|op| Step { op: *op, inst: 0 }).collect();
+    let parts7 = par_map(&heads7, |_, head| {
+        let mut st = Stats::default();
+        for tail in sequences(&on_original, 3) {
+            if ctx.stopped() {
+                break;
+            }
+            ctx.tick();
+            let mut steps = head.clone();
+            steps.extend(tail);
+            st.add("traces_validated_against_impl", 1);
+            st.add("transitions", steps.len() as u64);
+            if let Err(what) = run_sequence(&steps) {
+                let kinds: BTreeSet<String> = steps.iter().map(|s| format!("{:?}", s.op)).collect();
+                ctx.violation(
+                    &format!("sequence:{}", kinds.into_iter().collect::<Vec<_>>().join("+")),
+                    &format!("sequence {}: {what}", steps_json(&steps).to_string()),
+                    J::obj().set("steps", steps_json(&steps)),
+                );
+            }
+        }
+        st
+    });
+    for p in parts7 {
         stats.merge(p);
     }
     stats.add("sequential_sequences", stats.get("traces_validated_against_impl"));
